@@ -61,6 +61,8 @@ pub enum Producer {
     ToWriter,
     /// serde_json::to_vec, then write_all
     ToVec,
+    /// serde_json::to_writer_pretty straight onto the channel (more, smaller writes; whitespace in the stream)
+    ToWriterPretty,
 }
 
 #[derive(Clone, Copy, Debug, Serialize, Deserialize, PartialEq, Eq)]
